@@ -25,6 +25,9 @@ def base_frames(ctx, b, d, rnd, prop):
     q = ctx.tier == "quick"
     cases = []
     vecs = fl.opt_vectors(rnd, 10 if q else 90, codes=(4, 5), legacy_share=0.15, conc=(1,))
+    if sum(1 for o in vecs if o["legacy"]) < 2:          # always at least two legacy vectors
+        for o in vecs[:2]:
+            o["legacy"] = True
     for o in vecs:
         o = dict(o)
         if o.get("size") == -1:
